@@ -43,6 +43,13 @@ type (
 		Reference string  `json:"reference,omitempty"`
 		Val       *Val    `json:"val,omitempty"` // alias validations
 		MediaType string  `json:"mediaType,omitempty"`
+		// Coll says how a collection is declared (kind == "collection", added for C08): nil = CollectionOf(elem);
+		// otherwise CollectionOf(elem, func() { [Description(Desc)] [View(v) for v in Views] })
+		Coll *CollDecl `json:"coll,omitempty"`
+	}
+	CollDecl struct {
+		Desc  string   `json:"desc,omitempty"`
+		Views []string `json:"views,omitempty"`
 	}
 	View struct {
 		Name  string     `json:"name"`
@@ -166,6 +173,11 @@ type (
 		Name    string            `json:"name"`
 		Status  int               `json:"status"`
 		Headers map[string]string `json:"headers,omitempty"`
+		// Form is the way the status is written (added for C05): "" or "arg" Response(name, status); "argfn"
+		// Response(name, status, func(){..}); "code" Response(name, func(){ Code(status) }); "default"
+		// Response(name, func(){..}) with no status at all (Status is ignored); "swapped" Response(status, name);
+		// "bare" Response(name)
+		Form string `json:"form,omitempty"`
 	}
 	GRPC struct {
 		Metadata        []string    `json:"metadata,omitempty"`
